@@ -171,3 +171,56 @@ def replay_c18(model, params, clause, info):
     bad = [v for v in r["violations"] if not any(p.fullmatch("bounded:" + v["key"]) for p in pats)]
     return {"violates": bool(bad), "detail": "; ".join(f"{v['key']}: {v['detail']}" for v in bad[:5])[:700] or "round trips reproduce the models on the real code (known findings aside)",
             "entry": {"module": "contracts.C18_persistence", "function": "replay_c18", "args": [model, list(params), clause, info]}}
+
+
+@case("C18", clause="constraint_value_depends_on_registered_state_only", name="constraint_reads", expand=lambda ix: [(k,) for k in c17.KINDS], replay=lambda *a: replay_constraint_reads(*a),
+      functions=["gpytorch.constraints.constraints.Interval.transform", "gpytorch.constraints.constraints.Interval.inverse_transform", "gpytorch.constraints.constraints.Interval.check"])
+def constraint_reads(c, kind):
+    """a restored model computes its hyperparameters as constraint.transform(raw): for that to be reproduced by a state_dict round trip, transform / inverse_transform /
+    check may read, of the constraint object, only what the state_dict carries (registered buffers / parameters / sub-modules) and non-tensor constructor constants
+    (the transform callables, flags) -- a plain attribute holding tensor state (e.g. a cached width) is invisible to load_state_dict"""
+    from engine.dom_elem import VTensor
+    it, ctx = c.it, c.ctx
+    cons, lo, hi = c17.make_constraint(c, kind)
+    d = c.size("d")
+    x = sym_tensor("raw", [d.t])
+    v = c17.in_bounds_value(c, "val", d.t, lo, hi)
+    n0 = len(ctx.reads)
+    k = ivar("k")
+    c.assume(z3.And(k >= 0, k < d.t))
+    t = it.call(ctx, c.getattr(cons, "transform"), [x], {})
+    t.at_dims([k])
+    inv = it.call(ctx, c.getattr(cons, "inverse_transform"), [v], {})
+    inv.at_dims([k])
+    names = sorted({loc[2] for loc in ctx.reads[n0:] if loc[0] == "field" and loc[1] == cons.label})
+    registered = set(cons.fields["_buffers"].d) | set(cons.fields["_parameters"].d) | set(cons.fields["_modules"].d)
+    plain_tensor_state = []
+    for nm in names:
+        if nm in registered or nm in ("_buffers", "_parameters", "_modules"):
+            continue
+        val = cons.fields.get(nm)
+        if isinstance(val, VTensor) or (isinstance(val, VNum) and not z3.is_rational_value(z3.simplify(val.t)) and not z3.is_int_value(z3.simplify(val.t))):
+            plain_tensor_state.append(nm)
+    c.cover("reads_recorded") if names else None
+    c.prove("constraint_reads.no_unregistered_tensor_state_is_read", z3.BoolVal(not plain_tensor_state), unregistered_tensor_attributes_read=plain_tensor_state, fields_read=names)
+    if "_buffers" in names or (registered & set(names)):
+        c.cover("registered_state_read")
+
+
+def replay_constraint_reads(model, params, clause, info):
+    """real constraints: load the state of a constraint with bounds (0.2, 3.0) into one constructed with other bounds; transform / inverse_transform must then be those
+    of the LOADED bounds"""
+    import torch
+    import gpytorch
+    (kind,) = params
+    C = gpytorch.constraints
+    mk = {"Interval": (lambda: C.Interval(0.2, 3.0), lambda: C.Interval(0.0, 1.0)), "GreaterThan": (lambda: C.GreaterThan(0.2), lambda: C.GreaterThan(5.0)),
+          "LessThan": (lambda: C.LessThan(3.0), lambda: C.LessThan(-1.0)), "Positive": (lambda: C.Positive(), lambda: C.Positive())}[kind]
+    src, dst = mk[0]().double(), mk[1]().double()
+    dst.load_state_dict(src.state_dict())
+    raw = torch.linspace(-2, 2, 7, dtype=torch.double)
+    a, b = src.transform(raw), dst.transform(raw)
+    back = dst.inverse_transform(a)
+    bad = not (torch.allclose(a, b, atol=1e-12) and torch.allclose(back, raw, atol=1e-8))
+    return {"violates": bool(bad), "detail": f"{kind}: transform after load_state_dict differs from the saved constraint's by {(a - b).abs().max().item():.3e}; inverse round trip error {(back - raw).abs().max().item():.3e}",
+            "entry": {"module": "contracts.C18_persistence", "function": "replay_constraint_reads", "args": [model, list(params), clause, info]}}
